@@ -54,11 +54,14 @@ Proof. repeat split; try (vm_compute; reflexivity). eexists _, _. vm_compute. re
 
 (* the AArch64 specifics really occur in the emitted code *)
 Lemma ex_code_shape :
-  In (MOVK (X 7) 29179 16) ex_code /\ In (MOVK (X 7) 287 32) ex_code /\      (* a = 0x011f_71fb_04cb *)
-  In (MOVN (X 9) 721 0) ex_code /\ In (MOVK (X 9) 46697 16) ex_code /\       (* b *)
-  In (STR (X 29) SP 56) ex_code /\ In (MOVR (X 0) (X 29)) ex_code /\         (* X30 pushed around BL; printed *)
-  In (STR (X 10) SP 2040) ex_code /\ In (MSUB (X 2) (X 3) (X 10) (X 2)) ex_code.  (* rem, X10 evacuated to slot 0 *)
-Proof. vm_compute. intuition. Qed.
+  filter (fun c => match c with MOVK _ _ _ | MOVN _ _ _ | MSUB _ _ _ _ | STR (X 10) _ _ | STR (X 29) _ _ | MOVR _ (X 29) => true
+                   | _ => false end) ex_code =
+  [MOVK (X 7) 29179 16; MOVK (X 7) 287 32;                    (* a = 0x011f_71fb_04cb after MOVZ *)
+   MOVN (X 9) 721 0; MOVK (X 9) 46697 16;                     (* b *)
+   STR (X 29) SP 56; MOVR (X 0) (X 29);                       (* X30 pushed around BL (13 live variables); v13 printed from X30 *)
+   STR (X 10) SP 2040; MSUB (X 2) (X 3) (X 10) (X 2);         (* rem with everything spilled: X10 evacuated to slot 0 *)
+   STR (X 29) SP 56; STR (X 29) SP 56].                       (* X30 pushed around the two later prints *)
+Proof. vm_compute. reflexivity. Qed.
 
 (* x = 0 and x = 5: main calls f, which exits with r resp. e; x = 200: the else branch divides;
    x = 100: division by zero *)
